@@ -93,7 +93,7 @@ def asan_part(conf, ev, wd, rng, quick, tier, seed):
     sets, notes = harvest("quick", seed, quick)
     ev.cov["harvest_notes"] = notes
     done = []
-    budget = 6000 if quick else 600000
+    budget = 20000 if quick else 600000
     for g in sets:
         if g["custom_bdir"]:
             continue                                  # special builds (instrumented objects) are not re-run
